@@ -316,6 +316,11 @@ FN('new_chunked', props=['C03', 'C09'], ret='r', ensures=[('aux.new_chunked', 'r
 FN('new_sized', props=['C04', 'C09'], ret='r', ensures=[('aux.new_sized', 'r.mode == SenderMode::Sized(size) && !r.ended && r.wf()')])
 FN('has_body', props=['C09', 'C17', 'C02'], ret='r', ensures=[('aux.has_body', 'r == !(self.mode is None)')])
 FN('is_chunked', props=['C03', 'C18'], ret='r', ensures=[('aux.is_chunked', 'r == (self.mode is Chunked)')])
+FN('body_header', props=['C02'], ret='r', trusted=True,
+   requires=[('aux.body_header.has_mode', '!(self.mode is None)')],
+   ensures=[('assumed.body_header', '''match self.mode {
+            SenderMode::Sized(n) => r.0.view() == str_bytes("content-length") && parse_dec_u64(r.1.view()) == Some(n) && crate::http::valid_value(r.1.view()),
+            _ => r.0.view() == str_bytes("transfer-encoding") && r.1.view() == str_bytes("chunked") }''')])
 FN('is_ended', props=['C03', 'C04', 'C09'], ret='r', ensures=[('aux.is_ended', 'r == self.ended')])
 FN('left_to_send', props=['C04'], ret='r', ensures=[('aux.left_to_send', 'r == self.left()')])
 
